@@ -97,6 +97,13 @@ def c19():
     okonly("passthrough/hex-B-grid", "\n".join(lines))
     okonly("passthrough/float-str", "let x: f64 = uint!(1.5); let s: &str = uint!(\"1_U8\"); let c = uint!('U');")
     okonly("nesting", "let x: [Uint<8, 1>; 1] = uint!{ [ ( { 1_U8 } ) ] }; let v = uint!(vec![1_U8, 2_U8]); let _: Vec<Uint<8, 1>> = v;")
+    # literals that arrive inside the invisible groups the compiler wraps around macro_rules! fragments ($x:expr,
+    # $x:literal) are transformed like any others (seed C19d: an arm that returned Delimiter::None groups untouched)
+    okonly("nesting/macro-fragments",
+           "macro_rules! fwd_lit { ($x:literal) => { uint!($x) }; }\n"
+           "macro_rules! fwd_expr { ($x:expr) => { uint!($x) }; }\n"
+           "let a: Uint<8, 1> = fwd_lit!(5_U8); let b: Uint<65, 2> = fwd_expr!(0x10_U65 + 1_U65); "
+           "let c: Uint<256, 4> = fwd_expr!((5_U256));")
     # type-level proof that a hex literal ending in B<digits> without underscore is NOT a Bits literal
     pair("passthrough/hex-B-is-integer", "let x: Bits<8, 1> = uint!(0x1B8);", "mismatched types", "let x: Bits<8, 1> = uint!(0x1_B8);")
     # const evaluation equality with runtime parsing for a few literals (compile-time assertion)
